@@ -261,7 +261,7 @@ func dirtyXXX(v reflect.Value) {
 // describedCanon renders the part of a struct the schema describes (excluded fields left out).
 func describedCanon(s interface{}, excl Excl) string {
 	var sb strings.Builder
-	sform{excl: excl}.render(&sb, reflect.ValueOf(s), "", false)
+	sform{excl: excl, embedNorm: true}.render(&sb, reflect.ValueOf(s), "", false)
 	return sb.String()
 }
 
